@@ -752,8 +752,67 @@ def is_read_path(f):
     return False
 
 
+def range_rule(ctx):
+    """The decoder of U31 validates through U31::new; every U31 constant the crate writes into
+    images must be accepted by that predicate."""
+    for cfg in ("A", "B"):
+        crate = ctx.facts(cfg).lib
+        E = Effects(crate)
+        p = "vibrato::num::U31::new"
+        fa = E.fa(p)
+        bound = None
+        for b in sorted(fa.live_blocks()):
+            t = fa.term(b)
+            if t["k"] != "switch":
+                continue
+            o = fa.origin(t["op"])
+            if o[0] == "rv" and o[1]["k"] == "binop" and o[1]["op"] in ("Le", "Lt"):
+                a = fa.origin(o[1]["a"])
+                c = None
+                ob = fa.origin(o[1]["b"])
+                if ob[0] == "const":
+                    c = ob[1].get("int")
+                elif ob[0] == "call" and ob[2]["args"]:
+                    k = find_const(fa, ob[2]["args"][0])
+                    c = k.get("int") if k else None
+                if a[0] == "arg" and c is not None:
+                    bound = c if o[1]["op"] == "Le" else c - 1
+        if bound is None:
+            raise EngineError("CODEC-RANGE: cannot read the bound U31::new accepts")
+        consts = set()
+        for q, f in crate.fns.items():
+            if not f.body or f.krate != "vibrato":
+                continue
+            for bb in f.blocks:
+                for st in bb["stmts"]:
+                    rv = st.get("rv")
+                    if not rv:
+                        continue
+                    ops = [rv.get("op"), rv.get("a"), rv.get("b")] + list(rv.get("ops", []))
+                    for o in ops:
+                        if isinstance(o, dict) and "k" in o and o["k"].get("ty") == "vibrato::num::U31" \
+                                and "int" in o["k"]:
+                            consts.add(o["k"]["int"])
+                t = bb["term"]
+                if t["k"] == "call":
+                    for o in t["args"]:
+                        if "k" in o and o["k"].get("ty") in ("vibrato::num::U31", "&vibrato::num::U31") \
+                                and "int" in o["k"]:
+                            consts.add(o["k"]["int"])
+        ctx.floor("CODEC-RANGE", "U31 constants in the crate (cfg %s)" % cfg, len(consts), 1)
+        bad = sorted(c for c in consts if c > bound)
+        ctx.ob("CODEC-RANGE", "%s|U31::new-accepts-all-written-constants" % cfg, not bad,
+               "%s:%s" % (crate.fns[p].file, crate.fns[p].line),
+               "U31::new (applied by the decoder) accepts every U31 constant the crate stores in "
+               "images (max %d <= %d)" % (max(consts), bound) if not bad else
+               "U31::new accepts values up to %d but the crate writes the constant(s) %s (the "
+               "invalid feature id) into connector tables: such an image can be written but is "
+               "rejected by Dictionary::read" % (bound, bad))
+
+
 def run_c05(ctx):
     codec_rule(ctx, "C05")
+    range_rule(ctx)
     scorer_guard(ctx)
     config_rule(ctx)
     nohash_rule(ctx, "vibrato::dictionary::DictionaryInner")
